@@ -279,6 +279,9 @@ def _run_shard(shard):
     grid = GRIDS[g]
     acc = report.Acc(ID, replay, shard)
     params = radii(metric, grid) if kind == "rad" else [(k, None) for k in range(1, n + 1)]
+    # queries: every grid point plus half-integer points (fractional queries against an integer history; all
+    # distances stay exactly representable)
+    qgrid = list(grid) + [[v + 0.5 for v in grid[0]], [v - 0.5 for v in grid[-1]]]
     comps = comps_for(n, tier)
     for pts in itertools.product(grid, repeat=n):
         if shard.get("first") is not None and pts[0] != grid[shard["first"]]:
@@ -296,13 +299,13 @@ def _run_shard(shard):
                     cfg = make_cfg(ln, kind, metric, param, p_vec, shard["seed"])
                     one = ci == 0 and pi == 0  # single-row queries once per stored set
                     prefit = (ci + pi + len(pts)) % 3 == 0
-                    msgs, history = judge(cfg, ln, kind, metric, param, thr, p_vec, hist_rows, comp, grid, one, acc, prefit)
+                    msgs, history = judge(cfg, ln, kind, metric, param, thr, p_vec, hist_rows, comp, qgrid, one, acc, prefit)
                     acc.traces += 1
                     acc.state((ln, kind, metric, str(param), str(hist_rows), ci))
                     if msgs:
                         acc.violation("%s/%s %s %s=%s comp=%d" % (ln, kind, metric, "r" if kind == "rad" else "k", param, len(comp)),
                                       {"cfg": cfg, "ln": ln, "kind": kind, "metric": metric, "param": param, "thr": thr,
-                                       "p_vec": p_vec, "rows": hist_rows, "comp": comp, "queries": grid, "prefit": prefit},
+                                       "p_vec": p_vec, "rows": hist_rows, "comp": comp, "queries": qgrid, "prefit": prefit},
                                       msgs[0])
                     elif n >= 2 and ci == 1 and len(acc.samples) < 2:
                         acc.sample({"cfg": cfg, "history": history, "queries": grid})
